@@ -39,7 +39,7 @@ RULE = ('per case 1..6 update_theta_sketch inputs (lg_k 5..10, p in {1, 0.5, 0.0
         'result fed back as an input; intersections likewise (stateful reuse, has_result, get_result before any update refused); A-not-B on all '
         'ordered pairs in all form combinations (sort-based path for ordered x ordered, hash-based otherwise) incl. the early returns; Jaccard / '
         'exactly_equal on pairs incl. the same object and equal sets in different forms, ratio bounds on (union, intersection) pairs; a sketch '
-        'with a different seed is offered to every operation (refused); two seed-independent directed cases (case splits of the proofs; reset/reuse of '
+        'with a different seed is offered to every operation (refused); two seed-independent directed cases (case splits of the proofs; operator objects copied / moved / re-initialised by assignment; reset/reuse of '
         'unions whose own table has rebuilt, with exact- and estimation-mode inputs afterwards, intersections updated after get_result); '
         'non-trivial = the case runs at least one set operation over a non-empty input')
 TRUSTED = ['MurmurHash3 model coq/Murmur3.v and coq/Canon.v (exercised against the implementation by every update: the model hashes the items itself)',
@@ -150,7 +150,11 @@ def gen(rng, tier):
             ops.append([12, u, 0]); ops.append([12, u, 1, 60])    # result kept in register 60
             if pi == 0 and rng.random() < 0.6:
                 # reset the (possibly rebuilt, theta-lowered) union and reuse the same object: nothing of round 1 may survive
-                ops.append([13, u]); ops.append([12, u, 1])
+                if rng.random() < 0.5:
+                    ops.append([13, u])
+                else:
+                    ops.append([15, u, ulgk, rng.randrange(4), up, seed])     # u = builder.build()
+                ops.append([12, u, 1])
                 for r in rng.sample(sk, rng.randrange(1, len(sk) + 1)):
                     ops.append([11, u, r, form_of(r)])
                 ops.append([12, u, 0]); ops.append([12, u, 1, 60])
@@ -213,7 +217,7 @@ def gen(rng, tier):
         if any(op[0] == 8 and op[3] > uk for op in ops): tags.add('union-trims')
         cases.append(dict(id='ts%d' % ci, ops=ops, tags=sorted(tags), cost=sum((op[3] if op[0] == 8 else 30) for op in ops)))
     cases.sort(key=lambda c: -c['cost'])
-    return [directed_case(), directed_reuse_case()] + cases
+    return [directed_case(), directed_reuse_case(), directed_value_case()] + cases
 
 def directed_case():
     """Fixed scenarios at the case splits of the proofs (independent of the seed): two disjoint exact-mode sketches and an
@@ -383,6 +387,60 @@ def directed_reuse_case():
             ops.append([21, x, r, (r + x) % 8]); ops.append([23, x]); ops.append([22, x, r % 2]); ops.append([22, x, 1, 61])
         ops.append([21, x, 61, x % 8]); ops.append([22, x, 0])                       # its own result fed back: unchanged
     return dict(id='ts_reuse', ops=ops, tags=['setops', 'directed', 'reuse'], cost=0)
+
+def directed_value_case():
+    """Operator objects as values: a union whose own table has lowered theta / an intersection that has seen an estimation-mode
+       input is re-initialised by move-assignment from a fresh object (u = builder.build(); in = theta_intersection()), move-assigned
+       from another used object, copy-constructed, copy-assigned, move-constructed; then reused with exact-mode and with
+       estimation-mode inputs, original and copy diverging."""
+    S = 9001; ops = []
+    ops.append([1, 0, 10, 0, P_ONE, S]); ops.append([8, 0, 1, 500])                  # big exact-mode input: rebuilds a lg_k 5/6 union table
+    ops.append([1, 1, 5, 0, P_ONE, S]); ops.append([8, 1, 20000, 20])                # small, exact mode
+    ops.append([1, 2, 5, 0, P_ONE, S]); ops.append([8, 2, 30000, 200])               # estimation mode
+    ops.append([1, 3, 5, 0, P_ONE, S]); ops.append([8, 3, 20010, 25])                # small, overlaps 1
+    ops.append([1, 4, 6, 0, fbits(0.5), S]); ops.append([8, 4, 40000, 30])           # p = 0.5
+    def res(u): ops.append([12, u, 1]); ops.append([12, u, 0])
+    u = 100
+    for lgk in (5, 6):
+        # re-initialised from a fresh object, after the table lowered its theta
+        u += 1; a = u
+        ops.append([10, a, lgk, 1, P_ONE, S]); ops.append([11, a, 0, 1]); res(a)
+        ops.append([15, a, lgk, 2, P_ONE, S]); res(a)
+        ops.append([11, a, 1, 2]); res(a); ops.append([11, a, 2, 3]); res(a)
+        ops.append([15, a, lgk + 1, 0, fbits(0.5), S]); ops.append([11, a, 3, 0]); ops.append([11, a, 4, 4]); res(a)
+        # move-assigned from another used object
+        u += 1; b = u
+        ops.append([10, b, lgk, 0, P_ONE, S]); ops.append([11, b, 1, 5])
+        ops.append([15, a, lgk, 3, P_ONE, S]); ops.append([11, a, 0, 6]); res(a)     # a: rebuilt table again
+        ops.append([14, a, b, 3]); res(a); ops.append([11, a, 3, 7]); res(a)         # a := move(b): only b's content counts
+        ops.append([12, b, 1])                                                       # b is gone: refused
+        # copy-construct / copy-assign / move-construct, then diverge
+        u += 1; c = u
+        ops.append([10, b, lgk, 0, P_ONE, S]); ops.append([11, b, 0, 0]); ops.append([11, b, 2, 1]); res(b)
+        ops.append([14, c, b, 0]); res(c); ops.append([11, c, 1, 2]); ops.append([11, b, 3, 3]); res(c); res(b)
+        ops.append([14, a, b, 1]); res(a); ops.append([11, a, 4, 4]); res(a); res(b)
+        u += 1; d = u
+        ops.append([14, d, c, 2]); res(d); ops.append([11, d, 3, 5]); res(d); ops.append([12, c, 0])
+        ops.append([14, d, d, 1]); res(d)                                            # self copy-assignment
+        ops.append([13, d]); ops.append([11, d, 1, 6]); res(d)
+    x = 200
+    def ires(r): ops.append([23, r]); ops.append([22, r, 1]); ops.append([22, r, 0])
+    x += 1; a = x
+    ops.append([20, a, S]); ops.append([21, a, 2, 1]); ops.append([21, a, 0, 2]); ires(a)          # estimation-mode input seen
+    ops.append([25, a, S]); ires(a); ops.append([21, a, 1, 3]); ops.append([21, a, 3, 4]); ires(a)  # fresh again: exact inputs
+    x += 1; b = x
+    ops.append([20, b, S]); ops.append([21, b, 3, 5]); ires(b)
+    ops.append([21, a, 2, 6]); ires(a)
+    ops.append([14, a, b, 3]); ops.append([24, a, b, 3]); ires(a); ops.append([21, a, 1, 7]); ires(a); ops.append([22, b, 1])
+    x += 1; c = x
+    ops.append([20, b, S]); ops.append([21, b, 0, 0]); ops.append([21, b, 2, 1]); ires(b)
+    ops.append([24, c, b, 0]); ires(c); ops.append([21, c, 1, 2]); ops.append([21, b, 3, 3]); ires(c); ires(b)
+    ops.append([24, a, b, 1]); ires(a); ops.append([21, a, 4, 4]); ires(a); ires(b)
+    x += 1; d = x
+    ops.append([24, d, c, 2]); ires(d); ops.append([21, d, 3, 5]); ires(d); ops.append([22, c, 0])
+    ops.append([24, d, d, 1]); ires(d); ops.append([25, d, S]); ops.append([21, d, 1, 6]); ops.append([21, d, 3, 0]); ires(d)
+    ops.append([24, 101, 201, 0]); ops.append([14, 201, 101, 0]); ops.append([15, 201, 5, 0, P_ONE, S]); ops.append([25, 101, S])   # wrong kinds: refused
+    return dict(id='ts_values', ops=ops, tags=['setops', 'directed', 'values'], cost=0)
 
 FAMILIES = [dict(name='thetaset', harness='drv_thetaset.cpp', extract='Extract_thetaset.v', model='model_thetaset', gen=gen, oracle=oracle)]
 
